@@ -15,16 +15,17 @@ def install(w):
         Contract(
             "fakesnow.transforms.upper_case_unquoted_identifiers",
             params={"expression": E},
-            requires=[],
+            # field shape of parsed identifiers (A-SQLGLOT 1): `quoted` is a bool or absent
+            requires=["implies(isinstance(expression, exp.Identifier), arg(expression, 'quoted') is None or isinstance(arg(expression, 'quoted'), bool))"],
             result=E,
             modifies=[],
             ensures={
                 # every other node is handed back untouched (the very same object)
-                "C02.upper.identity": f"implies(not {UNQ}, result is expression)",
+                "C02.upper.identity": f"implies(not old({UNQ}), result is expression)",
                 # an unquoted identifier becomes a new identifier spelled in upper case, still unquoted; the input node is not changed
-                "C02.upper.fresh": f"implies({UNQ}, is_fresh(result) and same_class(result, expression))",
-                "C02.upper.text": f"implies({UNQ}, arg(result, 'this') == upper(old(arg(expression, 'this'))))",
-                "C02.upper.unquoted": f"implies({UNQ}, not arg(result, 'quoted'))",
+                "C02.upper.fresh": f"implies(old({UNQ}), is_fresh(result) and same_class(result, expression))",
+                "C02.upper.text": f"implies(old({UNQ}), arg(result, 'this') == upper(old(arg(expression, 'this'))))",
+                "C02.upper.unquoted": f"implies(old({UNQ}), not arg(result, 'quoted'))",
                 "C02.upper.input_unchanged": "arg(expression, 'this') == old(arg(expression, 'this')) and arg(expression, 'quoted') == old(arg(expression, 'quoted'))",
             },
             props=["C02"],
@@ -39,26 +40,89 @@ def install(w):
         Contract(
             "fakesnow.transforms.set_schema",
             params={"expression": E, "current_database": (Opt(str), None)},
-            requires=[f"implies({USE} and bool({THIS}), isinstance({THIS}, exp.Expression))"],
+            join_outcomes=False,
+            # field shapes of a parsed USE (A-SQLGLOT 1, Appendix A): `this` is a Table node (or absent), its `db` an Identifier (or absent)
+            requires=[
+                f"implies(isinstance(expression, exp.Use) and bool({THIS}), isinstance({THIS}, exp.Expression))",
+                f"implies(isinstance(expression, exp.Use) and bool({THIS}) and bool(arg({THIS}, 'db')), isinstance(arg({THIS}, 'db'), exp.Expression))",
+            ],
             result=E,
             modifies=[],
             raises={AssertionError: {"when": None, "ensures": {"C03.set_schema.assert_only_use": USE}, "modifies": []}},
             ensures={
-                "C03.set_schema.identity": f"implies(not {USE}, result is expression)",
-                "C03.set_schema.command": f"implies({USE}, is_fresh(result) and cls_is(result, exp.Command) and arg(result, 'this') == 'SET')",
+                "C03.set_schema.identity": f"implies(not old({USE}), result is expression)",
+                "C03.set_schema.command": f"implies(old({USE}), is_fresh(result) and cls_is(result, exp.Command) and arg(result, 'this') == 'SET')",
                 # USE DATABASE d: DuckDB goes to d.main, the session's database becomes d, no schema is named
-                "C03.set_schema.database": f"implies({USE} and {ISDB}, arg(result, 'set_database') == old(node_name({THIS})) and not has_arg(result, 'set_schema') "
+                "C03.set_schema.database": f"implies(old({USE}) and old({ISDB}), arg(result, 'set_database') == old(node_name({THIS})) and not has_arg(result, 'set_schema') "
                 f"and node_name(arg(result, 'expression')) == \"schema = '\" + old(node_name({THIS})) + \".main'\")",
                 # USE SCHEMA [db.]s: the schema is s; the database is the qualifier when there is one, else the session's
-                "C03.set_schema.schema": f"implies({USE} and not {ISDB}, arg(result, 'set_schema') == old(node_name({THIS})))",
-                "C03.set_schema.schema_db": f"implies({USE} and not {ISDB}, "
+                "C03.set_schema.schema": f"implies(old({USE}) and not old({ISDB}), arg(result, 'set_schema') == old(node_name({THIS})))",
+                "C03.set_schema.schema_db": f"implies(old({USE}) and not old({ISDB}), "
                 f"(arg(result, 'set_database') == old(node_name(arg({THIS}, 'db'))) if old(bool(arg({THIS}, 'db'))) else arg(result, 'set_database') is None))",
-                "C03.set_schema.schema_text": f"implies({USE} and not {ISDB}, node_name(arg(result, 'expression')) == \"schema = '\" + "
-                f"old(node_name(arg({THIS}, 'db')) if bool(arg({THIS}, 'db')) else (current_database or 'MISSING_DATABASE')) + '.' + old(node_name({THIS})) + \"'\")",
+                # (with neither a qualifier nor a session database the property wants 90105; what is generated then is a known finding of C03)
+                "C03.set_schema.schema_text.qualified": f"implies(old({USE}) and not old({ISDB}) and old(bool(arg({THIS}, 'db'))), node_name(arg(result, 'expression')) == "
+                f"\"schema = '\" + old(node_name(arg({THIS}, 'db'))) + '.' + old(node_name({THIS})) + \"'\")",
+                "C03.set_schema.schema_text.session": f"implies(old({USE}) and not old({ISDB}) and not old(bool(arg({THIS}, 'db'))) and bool(current_database), node_name(arg(result, 'expression')) == "
+                f"\"schema = '\" + current_database + '.' + old(node_name({THIS})) + \"'\")",
                 # A-WF: the bookkeeping arguments are strings (or absent) and no other bookkeeping argument is attached
-                "WF.set_schema.shapes": f"implies({USE}, (arg(result, 'set_database') is None or isinstance(arg(result, 'set_database'), str)) and (arg(result, 'set_schema') is None or isinstance(arg(result, 'set_schema'), str)) "
+                "WF.set_schema.shapes": f"implies(old({USE}), (arg(result, 'set_database') is None or isinstance(arg(result, 'set_database'), str)) and (arg(result, 'set_schema') is None or isinstance(arg(result, 'set_schema'), str)) "
                 "and not has_arg(result, 'create_db_name') and not has_arg(result, 'table_comment') and not has_arg(result, 'text_lengths') and not has_arg(result, 'seed'))",
             },
             props=["C03", "C02"],
+        )
+    )
+
+    import pathlib
+
+    CD = "(isinstance(expression, exp.Create) and upper(str(arg(expression, 'kind'))) == 'DATABASE')"
+    NAME = "old(arg(find_ident(expression), 'this'))"
+    w.add_contract(
+        Contract(
+            "fakesnow.transforms.create_database",
+            params={"expression": E, "db_path": (Opt(pathlib.Path), None)},
+            # field shape (A-SQLGLOT 1): an Identifier's `this` is a str
+            requires=[f"implies({CD} and find_ident(expression) is not None, isinstance(arg(find_ident(expression), 'this'), str))"],
+            result=E,
+            modifies=[],
+            raises={AssertionError: {"when": None, "ensures": {"C14.create_database.assert_only_nameless": f"{CD} and find_ident(expression) is None"}, "modifies": []}},
+            ensures={
+                "C14.create_database.identity": f"implies(not old({CD}), result is expression)",
+                "C14.create_database.command": f"implies(old({CD}), is_fresh(result) and cls_is(result, exp.Command) and arg(result, 'this') == 'ATTACH' and arg(result, 'create_db_name') == {NAME})",
+                # C14.file / C18: a database created by statement lives in the same file as one created by connect: db_file(db_path, name)
+                "C14.create_database.file": f"implies(old({CD}), node_name(arg(result, 'expression')) == ('IF NOT EXISTS ' if old(arg(expression, 'exists')) else '') + \"DATABASE '\" + db_file(db_path, {NAME}) + \"' AS \" + {NAME})",
+                "WF.create_database.shapes": f"implies(old({CD}), isinstance(arg(result, 'create_db_name'), str) and not has_arg(result, 'set_database') and not has_arg(result, 'set_schema') "
+                "and not has_arg(result, 'table_comment') and not has_arg(result, 'text_lengths') and not has_arg(result, 'seed'))",
+            },
+            props=["C14", "C18", "C03"],
+        )
+    )
+
+    from pyvc.types import ListT, TupleT
+
+    CR = "(isinstance(expression, exp.Create) and find_table(expression) is not None)"
+    CO = "(isinstance(expression, exp.Comment) and bool(arg(expression, 'expression')) and find_table(expression) is not None)"
+    TC = "arg(result, 'table_comment')"
+    w.add_contract(
+        Contract(
+            "fakesnow.transforms.extract_comment_on_table",
+            params={"expression": E},
+            # field shapes (A-SQLGLOT 1): Create.properties is a Properties node or absent; Comment.expression is a Literal
+            requires=[
+                "implies(isinstance(expression, exp.Create) and bool(arg(expression, 'properties')), isinstance(arg(expression, 'properties'), exp.Properties))",
+                "implies(isinstance(expression, exp.Comment) and bool(arg(expression, 'expression')), isinstance(arg(expression, 'expression'), exp.Expression))",
+            ],
+            result=E,
+            # the kept properties are re-parented to the copy (Expression.set on a list): parent pointers may change, nothing else
+            modifies=["*.parent"],
+            loops={0: {"invariant": ["is_list(other_props) and is_fresh(other_props)", "comment is None or exists(0, _k, lambda j: comment is arg(arg(seq_at(node_expressions(props), j), 'this'), 'this'))"]}},
+            ensures={
+                # COMMENT ON TABLE t IS 'c': nothing is sent to DuckDB but the no-op, and (t, 'c') is recorded
+                "C09.extract.comment_on": f"implies(not isinstance(expression, exp.Create) and {CO}, is_fresh(result) and is_tuple({TC}) and seq_len({TC}) == 2 "
+                f"and seq_at({TC}, 0) is old(find_table(expression)) and seq_at({TC}, 1) is old(arg(arg(expression, 'expression'), 'this')))",
+                # CREATE TABLE ... COMMENT = 'c': the comment recorded is one the statement declares, for the statement's own table; the input tree is not changed
+                "C09.extract.create": f"implies({CR} and bool(old(arg(expression, 'properties'))) and has_arg(result, 'table_comment') and result is not expression, is_tuple({TC}) and seq_len({TC}) == 2 and seq_at({TC}, 0) is old(find_table(expression)))",
+                "C09.extract.identity": "implies(not isinstance(expression, (exp.Create, exp.Comment, exp.Alter)), result is expression)",
+            },
+            props=["C09"],
         )
     )
